@@ -12,6 +12,7 @@
 mod fam_codecw;
 mod fam_iovec;
 mod fam_readn;
+mod fam_tlv;
 mod util;
 
 use std::io::Write;
@@ -19,11 +20,14 @@ use std::panic::{catch_unwind, AssertUnwindSafe};
 use util::{Exec, Family, Rng, StepOut};
 
 fn families() -> Vec<Box<dyn Family>> {
-    vec![
-        Box::new(fam_readn::ReadNFamily),
-        Box::new(fam_iovec::IovecFamily),
-        Box::new(fam_codecw::CodecWFamily),
-    ]
+    // one line per family, so that parallel branches merge cleanly
+    let mut v: Vec<Box<dyn Family>> = Vec::new();
+    v.push(Box::new(fam_readn::ReadNFamily));
+    v.push(Box::new(fam_iovec::IovecFamily));
+    v.push(Box::new(fam_codecw::CodecWFamily));
+    v.push(Box::new(fam_tlv::TlvFamily));
+    v.push(Box::new(fam_tlv::TlvViewFamily));
+    v
 }
 
 struct Stats {
